@@ -27,7 +27,7 @@ import (
 const vBits = 5 // abstract keys are the first vBits bits of the Kademlia identifier
 
 type vOp struct {
-	Kind   string `json:"kind"` // enq | deq | deqm | rem | clear | persist | renq | rdeq | rrem | rclear
+	Kind   string `json:"kind"` // enq | deq | deqm | rem | clear | persist | snap | restart | renq | rdeq | rrem | rclear
 	Prefix string `json:"prefix"`
 	Keys   []int  `json:"keys"`
 	Batch  int    `json:"batch"`
@@ -140,6 +140,8 @@ func vRun(sc *vScenario) []map[string]any {
 	rq := NewReprovideQueue()
 	evs := []map[string]any{{"e": "Reset", "bits": vBits}}
 	ctx := context.Background()
+	// one datastore for the whole history, as in a node that restarts on the same disk
+	d := dssync.MutexWrap(ds.NewMapDatastore())
 	for _, op := range sc.Ops {
 		ev := map[string]any{"e": "Op", "op": op.Kind, "prefix": vPfx(op.Prefix), "keys": append([]int{}, op.Keys...),
 			"retkeys": []int{}, "retprefix": []int{}, "retok": true, "lost": false}
@@ -167,10 +169,21 @@ func vRun(sc *vScenario) []map[string]any {
 			ev["retkeys"] = []int{n}
 		case "persist":
 			// persist, then restart: a fresh queue drains the datastore
-			d := dssync.MutexWrap(ds.NewMapDatastore())
 			if err := q.Persist(ctx, d, op.Batch); err != nil {
 				ev["retok"] = false
 			}
+			nq := NewProvideQueue()
+			if err := nq.DrainDatastore(ctx, d); err != nil {
+				ev["retok"] = false
+			}
+			q = nq
+		case "snap":
+			// persist only: the queue keeps running (or is persisted again later)
+			if err := q.Persist(ctx, d, op.Batch); err != nil {
+				ev["retok"] = false
+			}
+		case "restart":
+			// restart without persisting: a fresh queue drains whatever the datastore holds
 			nq := NewProvideQueue()
 			if err := nq.DrainDatastore(ctx, d); err != nil {
 				ev["retok"] = false
@@ -229,7 +242,14 @@ func vGen(r *rand.Rand, n int) *vScenario {
 		case x < 14:
 			sc.Ops = append(sc.Ops, vOp{Kind: "clear"})
 		case x < 16:
-			sc.Ops = append(sc.Ops, vOp{Kind: "persist", Batch: 1 + r.Intn(3)})
+			switch r.Intn(4) {
+			case 0, 1:
+				sc.Ops = append(sc.Ops, vOp{Kind: "persist", Batch: 1 + r.Intn(3)})
+			case 2:
+				sc.Ops = append(sc.Ops, vOp{Kind: "snap", Batch: 1 + r.Intn(3)})
+			default:
+				sc.Ops = append(sc.Ops, vOp{Kind: "restart"})
+			}
 		case x < 18:
 			sc.Ops = append(sc.Ops, vOp{Kind: "renq", Prefix: rp()})
 		case x < 19:
